@@ -127,6 +127,19 @@ func (mgr *Manager) VerifDump() VerifState {
 	return <-c
 }
 
+// VerifViewTags renders the tag snapshot a view holds (nil before its first use): per tag the decided
+// members and the streams that were pending when the snapshot was taken or are still to be evaluated.
+func (v *View) VerifViewTags() map[string][2][]uint {
+	if v.tagDetails == nil {
+		return nil
+	}
+	out := map[string][2][]uint{}
+	for n, td := range v.tagDetails {
+		out[n] = [2][]uint{verifBits(td.Matches), verifBits(td.Uncertain)}
+	}
+	return out
+}
+
 // VerifViewIndexes returns the readers a view holds (nil before its first use).
 func (v *View) VerifViewIndexes() []*index.Reader { return v.indexes }
 
